@@ -208,6 +208,33 @@ def guard_temp_cases(rng, _n):
     return cases
 
 
+def set_after_failure_cases(rng, _n):
+    """A set pattern evaluated when the report already holds entries (a failing sibling before it), and before further failing
+    siblings: every independent mismatch is reported, whatever has been reported already."""
+    import tgen
+    cases = []
+    k = 0
+    decl = "#[derive(Debug)] pub struct Q { pub a: i32, pub xs: Vec<i32>, pub b: i32, pub o: Option<Vec<i32>> }"
+    adt = lambda ctor, names, vals: "(adt %s (names %s) (vals %s))" % (tgen.hexs(ctor), " ".join(tgen.hexs(n) for n in names), " ".join(vals))
+    meanings = "(meanings %s)" % " ".join("(v %s (int %d))" % (tgen.hexs(str(x)), x) for x in (0, 1, 2, 3, 7, 8, 9))
+    pats = ["Q { a: 1, xs: #(9, 8), b: 2, .. }", "Q { xs: #(9, 8), a: 1, b: 2, .. }", "Q { a: 1, b: 2, xs: #(1, 2, ..), .. }", "Q { a: 1, o: Some(#(9, 8)), b: 2, .. }",
+            "Q { a: 1, xs: #(1, 2, 3), o: Some(#(> 7, > 7)), b: 2, .. }", "_ { a: 1, xs: #(9), b: 2, .. }", "Q { a: 1, xs: #(> 0, > 0, > 8), b: 2, .. }"]
+    for (a, xs, b, o) in ((1, [8, 9], 2, [8, 9]), (0, [8, 9], 2, [8, 9]), (0, [1, 2], 0, [1, 2]), (1, [1, 2], 2, [1, 2]), (0, [1, 2, 3], 0, [8, 9]), (0, [], 0, []), (0, [9, 9], 2, [9, 9])):
+        val = "Q { a: %d, xs: vec!%s, b: %d, o: Some(vec!%s) }" % (a, xs, b, o)
+        seq = lambda l: "(seq %s)" % " ".join("(int %d)" % x for x in l)
+        sx = adt("Q", ["a", "xs", "b", "o"], ["(int %d)" % a, seq(xs), "(int %d)" % b, adt("Some", [], [seq(o)])])
+        for pt in pats:
+            c = t3.Case()
+            c.id = k
+            k += 1
+            c.forms = {"set-after-failure": 1}
+            c.perturbed = True
+            c.meanings = meanings
+            t3.finish_case(c, decl, "Q", val, sx, pt)
+            cases.append(c)
+    return cases
+
+
 def invocation_context_cases(rng, _n):
     """The same assertion in different syntactic surroundings: after other assertions in the same block, in expression position,
     as a match arm, next to caller locals named like the expansion's helpers, with another invocation inside a closure pattern.
@@ -313,7 +340,7 @@ def range_boundary_cases(rng, _n):
     ilit = lambda v: str(v)
     isx = lambda v: "(int %d)" % v
     flit = lambda v: repr(float(v))
-    fsx = lambda v: "(dec %s)" % repr(float(v))
+    fsx = lambda v: "(dec %d)" % round(float(v) * 100)      # the model's decimals are integers in hundredths
     for (lo, hi) in ((3, 9), (0, 100)):
         vals = sorted({lo - 1, lo, lo + 1, hi - 1, hi, hi + 1})
         for (a, b, incl) in ((lo, hi, False), (lo, hi, True), (None, hi, False), (None, hi, True), (lo, None, False)):
@@ -385,6 +412,7 @@ def check(ck, aspect, theorems, t2_parts=("body", "status", "validity")):
                                 ("map-wildcard-value", map_wild_cases, "map entries whose value pattern is `_`: the key is still required"),
                                 ("wildcard-struct-sibling", wildcard_shadow_cases, "a wildcard struct next to a sibling field of the same name"),
                                 ("guard-temporaries", guard_temp_cases, "field paths through guard-returning methods: each assertion releases its borrow before the next"),
+                                ("set-after-failure", set_after_failure_cases, "set patterns evaluated when the report already holds entries, and before further failing siblings"),
                                 ("invocation-context", invocation_context_cases, "the same assertion after other assertions, in expression position, as a match arm, in loops / closures, next to caller locals named like helpers"),
                                 ("eq-literal-text", eq_literal_text_cases, "expected expressions with blanks and `::` inside string literals"),
                                 ("range-boundary", range_boundary_cases, "integer and float ranges against values at and next to every bound"),
